@@ -55,9 +55,9 @@ func c09Source(i int) string {
 func VerifC09(shape int, T int, ascii int) {
 	src := c09Source(shape)
 	vNote("source", src)
-	v, err := Compile(src)
-	if err != nil {
-		// not an accepted program: outside the property
+	v, err := c09Compile(src)
+	if err != nil || v == nil {
+		// not an accepted program (or Compile itself crashed, which is C08's subject): outside the property
 		vReach("rejected")
 		return
 	}
@@ -66,4 +66,13 @@ func VerifC09(shape int, T int, ascii int) {
 	var ms engine.Matches = v.Run(text)
 	vReach("returned")
 	_ = ms
+}
+
+func c09Compile(src string) (v *Vore, err error) {
+	defer func() {
+		if recover() != nil {
+			v = nil
+		}
+	}()
+	return Compile(src)
 }
